@@ -12,6 +12,7 @@ pub fn sites() -> Vec<(&'static str, Box<dyn Fn(&mut Conn)>)> {
     v.push(("accept_emfile", Box::new(|c| c.faults.accept_err = Some(IoKind::TooManyFiles))));
     v.push(("local_addr_err", Box::new(|c| c.faults.local_addr_err = true)));
     v.push(("peer_addr_err", Box::new(|c| c.faults.peer_addr_err = true)));
+    v.push(("dup_emfile", Box::new(|c| c.faults.dup_err = true)));
     for k in [IoKind::ConnectionReset, IoKind::TimedOut, IoKind::Interrupted, IoKind::WouldBlock] {
         v.push(("read_err", Box::new(move |c| c.faults.read_errs = vec![(0, k)])));
     }
